@@ -240,7 +240,7 @@ impl WorkerHandle {
                         parts.pop();
                     }
                     let f = parts.join(":");
-                    detail = f.strip_prefix("/repo/").unwrap_or(&f).to_string();
+                    detail = crate::core::strip_repo(&f).to_string();
                 }
                 let ctx = tail
                     .lines()
